@@ -1233,3 +1233,23 @@ def g_stabilizer_state_list(rng, level=0, n_random=150):
 def g_random_bit(rng, level=0, n_random=40):
     for k in range(n_random):
         yield {'N': k % 6}
+
+
+@gen(CI + 'CliffordGate.compile#forward_only')
+def g_compile_fwd(rng, level=0, n_random=60):
+    import pyclifford.circuit as ci
+    for _ in range(n_random):
+        n_ = int(rng.integers(1, 4))
+        g = ci.CliffordGate(*range(n_))
+        g.forward_map = _rand_map(rng, n_)
+        yield {'self': g}
+
+
+@gen(CI + 'CliffordGate.compile#backward_only')
+def g_compile_bwd(rng, level=0, n_random=60):
+    import pyclifford.circuit as ci
+    for _ in range(n_random):
+        n_ = int(rng.integers(1, 4))
+        g = ci.CliffordGate(*range(n_))
+        g.backward_map = _rand_map(rng, n_)
+        yield {'self': g}
